@@ -53,6 +53,7 @@ def warm():
     global _warmed
     if _warmed:
         return
+    _warmed = True
     import random
     import shutil
     import tempfile
@@ -78,7 +79,6 @@ def warm():
             os.environ["VERIF_SCRATCH"] = old
         shutil.rmtree(d, ignore_errors=True)
         world.reset_stores()
-    _warmed = True
 
 
 _warmed = False
